@@ -515,8 +515,152 @@ def _incons_case(rng):
             return c
 
 
+# ---- structured streams (fifth round, gap review): domain LISTS, Algorithm 4's fall-through, conditional queries ----------
+
+def _split_cond(rng, ev, case_kw):
+    """turn a single-world event of >= 2 items into outcomes / conditions (same subscripts on both sides: one world, so
+    outside every known-finding class and judged by the value oracle); biased towards >= 3 items on one side"""
+    ev = list(ev)
+    rng.shuffle(ev)
+    if len(ev) >= 4 and rng.random() < 0.6:
+        nc = rng.choice([1, len(ev) - 1])
+    else:
+        nc = rng.randint(1, len(ev) - 1)
+    return _c(case_kw.pop("g"), case_kw.pop("domains"), ev[nc:], ev[:nc], case_kw.pop("seed"), **case_kw)
+
+
+def _tag_domains(rng, doms, allow_target=True):
+    """give the records of a domain list population tags that do NOT ascend with the list index (a shuffled subset of
+    pi1..pi6); sometimes add a target-tagged entry - half of them WITH (uncut) policy variables, P*(V; sigma_X) - and
+    sometimes repeat one record (the same tag twice, same regime)"""
+    tags = rng.sample(range(TARGET + 1, TARGET + 7), len(doms))
+    for d, t in zip(doms, tags):
+        d["pop"] = t
+    return doms
+
+
+def _multi_domain_case(rng):
+    """THREE or four source domains such that one chosen ctf-factor of the query can be transported ONLY from the LAST
+    entry of the list (position >= 2): every earlier entry carries a selection node or a policy on that district.  Tags
+    in shuffled order; optionally a target-tagged entry with an uncut policy variable, and a repeated record.  Single-world
+    events over distinct variables (value oracle judges); one case in three is conditional."""
+    for _try in range(200):
+        g = G.rand_graph(rng, 4, 5, acyclic=True, pd=rng.choice([0.4, 0.6]), pb=rng.choice([0.0, 0.25, 0.4]))
+        nodes = G.all_nodes(g)
+        if len(nodes) < 4 or len(g["bi"]) > 4:
+            continue
+        ev, xs = _single_world_event(rng, g)
+        if len(ev) >= 1:
+            break
+    names, ds = _event_factors(g, ev)
+    ds = sorted(ds, key=sorted)
+    d1 = rng.choice(ds)
+    outside = [v for v in nodes if v not in names]
+    k = rng.choice([3, 3, 4])
+    doms = []
+    for j in range(k):
+        d = {"pop": TARGET + 1 + j, "tmarks": [], "policy": [], "cut": []}
+        if j < k - 1:
+            _mark(rng, d, rng.choice(sorted(d1)))          # blocks the chosen district
+        for v in outside + [u for u in sorted(names) if u not in d1]:
+            if v not in d["tmarks"] + d["policy"] and rng.random() < (0.25 if j < k - 1 else 0.1):
+                _mark(rng, d, v)
+        for key in ("tmarks", "policy", "cut"):
+            d[key] = sorted(d[key])
+        doms.append(d)
+    _tag_domains(rng, doms)
+    r = rng.random()
+    if r < 0.15:                                            # the same record twice (same tag, same regime)
+        j = rng.randrange(len(doms) - 1)
+        doms.insert(rng.randrange(len(doms)), json.loads(json.dumps(doms[j])))
+    elif r < 0.35:                                          # a target-tagged entry, half of them with an uncut policy
+        pol = [rng.choice(sorted(d1))] if rng.random() < 0.5 else ([rng.choice(nodes)] if rng.random() < 0.5 else [])
+        doms.insert(rng.randrange(len(doms)), {"pop": TARGET, "tmarks": [], "policy": sorted(pol), "cut": []})
+    seed = rng.randrange(1 << 30)
+    if len(ev) >= 2 and rng.random() < 0.35:
+        return _split_cond(rng, ev, {"g": g, "domains": doms, "seed": seed, "topo_seed": rng.randrange(1 << 30),
+                                     "stream": "multi_domain"})
+    return _u(g, doms, ev, seed, topo_seed=rng.randrange(1 << 30), stream="multi_domain")
+
+
+def _fallthrough_case(rng):
+    """Algorithm 4 must FALL THROUGH a usable domain in which IDENTIFY fails to a later domain: a bow X -> Y, X <-> Y into
+    the ctf-factor {Y} of Y_x; an unmarked source domain (or the target-tagged entry) is usable but B_i = {X, Y} and
+    IDENTIFY fails; a domain with a CUT policy on X has B_i = {Y} and succeeds.  Random relabelling, optional extra
+    vertices, random list order, optionally a third (unusable: selection node on Y) domain."""
+    n = rng.choice([2, 3, 3, 4])
+    lab = rng.sample(range(5), n)
+    x, y = lab[0], lab[1]
+    di, bi = [[x, y]], [[x, y]]
+    for z in lab[2:]:
+        r = rng.random()
+        if r < 0.35:
+            di.append([z, x])
+        elif r < 0.6:
+            di.append([y, z])
+        elif r < 0.8:
+            di.append([z, y])
+        else:
+            di += [[x, z], [z, y]]
+    g = {"nodes": [], "di": di, "bi": bi}
+    ev = [cv(y, rng.choice("mp"), [(x, rng.choice("mmp"))])]
+    doms = [{"pop": TARGET if rng.random() < 0.3 else TARGET + 1, "tmarks": [], "policy": [], "cut": []},
+            {"pop": TARGET + 2, "tmarks": [], "policy": [x], "cut": [x]}]
+    if rng.random() < 0.5:
+        doms.append({"pop": TARGET + 3, "tmarks": [y], "policy": [], "cut": []})
+    rng.shuffle(doms)
+    if rng.random() < 0.5:
+        _tag_domains(rng, [d for d in doms if d["pop"] != TARGET])
+    return _u(g, doms, ev, rng.randrange(1 << 30), topo_seed=rng.randrange(1 << 30), stream="fallthrough")
+
+
+def _cond_structured_case(rng):
+    """conditional queries that the value oracle judges: a single-world event of 2-4 items over distinct variables of a
+    4-5 node graph (the two_domain construction), split into outcomes and conditions - with >= 3 conditions or >= 3
+    outcomes in every second case that has 4 items"""
+    for _try in range(100):
+        c = _two_domain_case(rng) if rng.random() < 0.6 else _single_world_case(rng)
+        if c["kind"] == "uncond" and len(c["event"]) >= 2 and len({v[1] for v in c["event"]}) == len(c["event"]):
+            break
+    g = c["g"]
+    ev = c["event"]
+    if len(ev) < 4 and rng.random() < 0.6:                  # widen the event inside the same world
+        used = {int(v[1]) for v in ev} | {int(z) for z, _ in ev[0][4]}
+        more = [v for v in G.all_nodes(g) if v not in used]
+        rng.shuffle(more)
+        for v in more[: 4 - len(ev)]:
+            ev.append(cv(v, "m" if rng.random() < 0.65 else "p", [tuple(i) for i in ev[0][4]]))
+    return _split_cond(rng, ev, {"g": g, "domains": c["domains"], "seed": c["eval_seed"],
+                                 "topo_seed": c.get("topo_seed", 1), "stream": "cond_structured"})
+
+
+def _six_node_case(rng):
+    """thorough tier only: 6-node graphs (binary variables, <= 3 bidirected edges forming long districts), single-world
+    events; the value oracle runs up to 6 nodes on this stream"""
+    while True:
+        g = G.rand_graph(rng, 6, 6, acyclic=True, pd=rng.choice([0.35, 0.5]), pb=0.15)
+        nodes = G.all_nodes(g)
+        if len(nodes) == 6 and len(g["bi"]) <= 3:
+            break
+    ev, _xs = _single_world_event(rng, g)
+    doms = _marks_only_domains(rng, nodes) if rng.random() < 0.5 else _rand_domains(rng, nodes)
+    seed = rng.randrange(1 << 30)
+    if len(ev) >= 2 and rng.random() < 0.3:
+        return _split_cond(rng, ev, {"g": g, "domains": doms, "seed": seed, "topo_seed": rng.randrange(1 << 30),
+                                     "stream": "six_node"})
+    return _u(g, doms, ev, seed, topo_seed=rng.randrange(1 << 30), stream="six_node")
+
+
+def _with_forms(rng, c):
+    """argument forms of the public wrappers that the other streams never use: a single Variable instead of a one-element
+    list, CFTDomain(population=<Population>) (the distribution is then built over graph.nodes() in NODE order), and
+    ordering=None (the wrapper takes graph.topological_sort())"""
+    c["forms"] = {"single": rng.random() < 0.5, "population": rng.random() < 0.5, "ordering_none": rng.random() < 0.5}
+    return c
+
+
 MALFORMED = ["empty_event", "all_none", "outside", "no_domains", "bad_topo", "policy_outside", "tnode_in_target",
-             "cyclic_target", "extra_vertex", "star_none_cond", "target_tag_other_graph", "overlap_cond"]
+             "cyclic_target", "extra_vertex", "star_none_cond", "target_tag_other_graph", "overlap_cond", "cyclic_domain"]
 
 
 def _rand_malformed(rng):
@@ -524,6 +668,8 @@ def _rand_malformed(rng):
     kind = rng.choice(MALFORMED)
     nodes = G.all_nodes(c["g"])
     c["malformed"] = kind
+    if c["domains"]:                 # fifth round: the damaged domain is not always domains[0]
+        c["mal_dom"] = rng.randrange(len(c["domains"]))
     key = "event" if c["kind"] == "uncond" else "outcomes"
     if kind == "empty_event":
         c[key] = []
@@ -546,7 +692,8 @@ def _rand_malformed(rng):
     elif kind == "no_domains":
         c["domains"] = []
     elif kind == "policy_outside":
-        c["domains"][0]["policy"] = c["domains"][0]["policy"] + [94]
+        k = rng.randrange(len(c["domains"]))
+        c["domains"][k]["policy"] = c["domains"][k]["policy"] + [94]
     elif kind == "overlap_cond":
         if c["kind"] != "cond":
             c = _c(c["g"], c["domains"], [cv(nodes[0], "m")], [cv(nodes[0], "m")], c["eval_seed"], malformed=kind)
@@ -581,6 +728,17 @@ def cases(rng: random.Random, tier: str):
         out.append(_redundant_case(rng))
     for _ in range(n_sw // 8):
         out.append(_incons_case(rng))
+    for _ in range(n_sw // 6):
+        out.append(_multi_domain_case(rng))
+    for _ in range(n_sw // 10):
+        out.append(_fallthrough_case(rng))
+    for _ in range(n_sw // 6):
+        out.append(_cond_structured_case(rng))
+    for _ in range(n_sw // 15):
+        out.append(_with_forms(rng, rng.choice([_single_world_case, _two_domain_case, _rand_case])(rng)))
+    if tier not in ("quick", "escalated"):
+        for _ in range(600):
+            out.append(_six_node_case(rng))
     for _ in range(n_rand):
         out.append(_rand_case(rng, 5 if rng.random() < 0.3 else 4))
     for _ in range(n_mal):
@@ -647,22 +805,39 @@ def _build(case):
         tg["di"] = tg["di"] + [[tg["di"][0][1], tg["di"][0][0]]]
     target = G.to_nx_mixed(tg)
     domains = []
+    mk = min(case.get("mal_dom", 0), max(len(case["domains"]) - 1, 0))
+    forms = case.get("forms") or {}
     for k, d in enumerate(case["domains"]):
-        gd = domain_graph_dict(g, d, mal if k == 0 else None)
-        if mal == "target_tag_other_graph" and k == 0:
+        gd = domain_graph_dict(g, d, mal if k == mk else None)
+        if mal == "target_tag_other_graph" and k == mk:
             d = dict(d, pop=TARGET, tmarks=[G.all_nodes(g)[0]])
             gd = domain_graph_dict(g, d)
-        graph = G.to_nx_mixed(gd)
-        missing = mal == "bad_topo" and k == 0 and case.get("mal_variant") == "topo_missing"
+        gd_graph = gd
+        if mal == "cyclic_domain" and k == mk and gd["di"]:
+            # the cycle is in the graph only; the order is a valid order of the graph without the back edge (never empty)
+            gd_graph = dict(gd, di=gd["di"] + [[gd["di"][0][1], gd["di"][0][0]]])
+        graph = G.to_nx_mixed(gd_graph)
+        missing = mal == "bad_topo" and k == mk and case.get("mal_variant") == "topo_missing"
         order = [Variable(G.vname(v)) for v in _topo(gd, case.get("topo_seed", 1) + k,
-                                                     bad=(mal == "bad_topo" and k == 0 and not missing))]
+                                                     bad=(mal == "bad_topo" and k == mk and not missing))]
         if missing and len(order) >= 2:     # never an EMPTY order: the public wrapper replaces it by the graph's own sort
             drop = G.vname(gd["di"][0][1]) if gd["di"] else order[-1].name
             order = [v for v in order if v.name != drop]
         regular = [Variable(G.vname(v)) for v in sorted(G.all_nodes(gd)) if v < 200]
-        domains.append(CFTDomain(graph=graph, population=PP[Variable(G.vname(d["pop"]))](regular),
-                                 policy_variables={Variable(G.vname(v)) for v in d["policy"]}, ordering=order))
+        population = PP[Variable(G.vname(d["pop"]))](regular)
+        if forms.get("population"):
+            from y0.dsl import Population
+            population = Population(G.vname(d["pop"]))        # CFTDomain.__post_init__ builds PP[pop](graph nodes)
+        domains.append(CFTDomain(graph=graph, population=population,
+                                 policy_variables={Variable(G.vname(v)) for v in d["policy"]},
+                                 ordering=None if forms.get("ordering_none") else order))
     return target, domains
+
+
+def _arg(vs, case):
+    """the event / outcomes / conditions argument: a list, or - form `single` - the one Variable itself"""
+    vs = [_y0_var(v) for v in vs]
+    return vs[0] if len(vs) == 1 and (case.get("forms") or {}).get("single") else vs
 
 
 # ------------------------------------------------------------------------------------------------ oracle
@@ -870,6 +1045,26 @@ def _in_quantifier(case):
     return "malformed" not in case and not any(d.get("drop_bi") for d in case["domains"])
 
 
+def _fail_check(case):
+    """(f) FAIL although transportable - only on the streams built so that ONE entry of the domain list suffices: when the
+    procedure refuses the query on the full list but answers it from a single entry of the same list alone, with a value
+    the exact oracle accepts, the refusal is wrong (Algorithm 4 tries every domain in turn and Algorithm 2 refuses only
+    when some ctf-factor can be transported from NO domain: an answer from a sub-list is an exact witness)"""
+    for k in range(len(case["domains"])):
+        sub = json.loads(json.dumps(case))
+        sub["domains"] = [sub["domains"][k]]
+        sub["stream"] = "fail_witness"
+        sub.pop("forms", None)
+        try:
+            r = run_python(sub)
+        except Exception:  # noqa: BLE001
+            continue
+        if r["out"][0] == "ok" and r["tags"].get("outcome") == "answer" and r["fail"] is None:
+            return (f"FAIL although the query is transportable: entry {k} of the domain list alone answers it (value accepted "
+                    "by the exact oracle); Algorithm 4 must try every domain")
+    return None
+
+
 def run_python(case):
     logging.getLogger("y0").setLevel(logging.CRITICAL)
     from y0.algorithm.counterfactual_transport import api
@@ -885,7 +1080,10 @@ def run_python(case):
         target, domains = _build(case)
     except Exception as e:  # building the inputs failed (e.g. y0 rejects the graph): not a case
         return {"out": ["skip", type(e).__name__], "fail": None, "nontrivial": False, "tags": dict(tags, outcome="skip")}
-    domain_graphs = [(d.graph, d.ordering) for d in domains]
+    try:
+        domain_graphs = [(d.graph, d.ordering or list(d.graph.topological_sort())) for d in domains]   # as the public wrappers
+    except Exception as e:  # noqa: BLE001  (an empty order over a cyclic graph: not a case)
+        return {"out": ["skip", type(e).__name__], "fail": None, "nontrivial": False, "tags": dict(tags, outcome="skip")}
     domain_data = [(d.policy_variables, d.population) for d in domains]
     # 1. the procedure's own validation
     vclass = None
@@ -910,10 +1108,9 @@ def run_python(case):
     res, exc = None, None
     try:
         if kind == "uncond":
-            res = api.unconditional_cft(event=[_y0_var(v) for v in case["event"]], target_domain_graph=target, domains=domains)
+            res = api.unconditional_cft(event=_arg(case["event"], case), target_domain_graph=target, domains=domains)
         else:
-            res = api.conditional_cft(outcomes=[_y0_var(v) for v in case["outcomes"]],
-                                      conditions=[_y0_var(v) for v in case["conditions"]],
+            res = api.conditional_cft(outcomes=_arg(case["outcomes"], case), conditions=_arg(case["conditions"], case),
                                       target_domain_graph=target, domains=domains)
     except RecursionError as e:
         exc = e
@@ -939,6 +1136,8 @@ def run_python(case):
     elif res is None:
         out = ["fail"]
         tags["outcome"] = "fail"
+        if case.get("stream") in ("multi_domain", "fallthrough") and _in_quantifier(case) and len(nodes) <= 5:
+            fail = _fail_check(case)
     else:
         enc = E.enc_expr(res.expression)
         ret_event = None if res.event is None else _enc_event(res.event)
@@ -946,7 +1145,7 @@ def run_python(case):
         tags["outcome"] = "zero" if isinstance(res.expression, Zero) else "answer"
         queried = case["event"] if kind == "uncond" else case["outcomes"]
         cond = None if kind == "uncond" else case["conditions"]
-        if len(nodes) <= 5 and _in_quantifier(case):
+        if len(nodes) <= (6 if case.get("stream") == "six_node" else 5) and _in_quantifier(case):
             if isinstance(res.expression, Zero):
                 fail = _zero_check(case, queried, cond)
             elif ret_event is None:
@@ -976,7 +1175,7 @@ def request(case):
     if not MODEL_READY:
         return None
     mal = case.get("malformed")
-    if mal in ("tnode_in_target", "cyclic_target", "extra_vertex", "target_tag_other_graph", "bad_topo"):
+    if mal in ("tnode_in_target", "cyclic_target", "extra_vertex", "target_tag_other_graph", "bad_topo", "cyclic_domain"):
         return None    # these are built on the y0 side only (the model receives the same checks through other cases)
     if any(d.get("drop_bi") for d in case["domains"]):
         # whether the run ends in FAIL or in Algorithm 4's ValueError depends on the order in which Python's sets yield
@@ -987,8 +1186,11 @@ def request(case):
     doms = []
     for k, d in enumerate(case["domains"]):
         gd = domain_graph_dict(g, d)
-        doms.append([d["pop"], C.graph_sexp(G.all_nodes(gd), gd["di"], gd["bi"]), _topo(gd, case.get("topo_seed", 1) + k),
-                     d["policy"]])
+        order = _topo(gd, case.get("topo_seed", 1) + k)
+        if (case.get("forms") or {}).get("ordering_none"):
+            # the wrapper takes the graph's own topological sort: the model is given that order
+            order = [G.name_to_int(v.name) for v in G.to_nx_mixed(gd).topological_sort()]
+        doms.append([d["pop"], C.graph_sexp(G.all_nodes(gd), gd["di"], gd["bi"]), order, d["policy"]])
     if case["kind"] == "uncond":
         # (ok <in the class of Props/C09Sound ctfTRu_sound_partial> <answer of ctfTRu>)
         return C.enc(["ctftr", "uncond", gs, doms, case["event"]])
